@@ -152,7 +152,7 @@ def parse_terse(out):
 
 def run_kani(workdir, harnesses, target, timeout, extra=(), jobs=None, harness_timeout=None, exact=True, mem_gb=12):
     terse = bool(jobs)
-    cmd = ['cargo', 'kani', '-Z', 'function-contracts', '-Z', 'stubbing', '-Z', 'unstable-options', '--output-format', 'terse' if terse else 'regular']
+    cmd = ['cargo', 'kani', '--lib', '-Z', 'function-contracts', '-Z', 'stubbing', '-Z', 'unstable-options', '--output-format', 'terse' if terse else 'regular']   # --lib: the bin target holds copies of the same modules (lib_only!() returns there); compiling it only doubles the cost
     if exact:
         cmd.append('--exact')
     for h in harnesses:
@@ -291,7 +291,7 @@ def first_error(out):
 
 def playback(workdir, harness, target):
     """concrete values of the kani::any() calls of the failing trace"""
-    cmd = ['cargo', 'kani', '-Z', 'function-contracts', '-Z', 'stubbing', '-Z', 'concrete-playback', '--concrete-playback=print', '--exact', '--harness', harness]
+    cmd = ['cargo', 'kani', '--lib', '-Z', 'function-contracts', '-Z', 'stubbing', '-Z', 'concrete-playback', '--concrete-playback=print', '--exact', '--harness', harness]
     try:
         p = subprocess.run(cmd, cwd=workdir, env=kani_env(target), stdout=subprocess.PIPE, stderr=subprocess.STDOUT, text=True, timeout=900)
     except subprocess.TimeoutExpired:
